@@ -10,10 +10,16 @@ void LSX_INIT_FFT_CACHE(void)
 {
   if (FFT_LEN >= 0)
     return;
+#if defined SOXR_VERIF_YIELD
+  SOXR_VERIF_YIELD("init:check-passed");
+#endif
   assert(LSX_FFT_BR == NULL);
   assert(LSX_FFT_SC == NULL);
   assert(FFT_LEN == -1);
   ccrw2_init(FFT_CACHE_CCRW);
+#if defined SOXR_VERIF_YIELD
+  SOXR_VERIF_YIELD("init:locks-initialised");
+#endif
   FFT_LEN = 0;
 }
 
@@ -39,6 +45,9 @@ static bool UPDATE_FFT_CACHE(int len)
     ccrw2_become_writer(FFT_CACHE_CCRW);
     if (len > FFT_LEN) {
       int old_n = FFT_LEN;
+#if defined SOXR_VERIF_YIELD
+      SOXR_VERIF_YIELD("cache:rebuild-begin");
+#endif
       FFT_LEN = len;
       LSX_FFT_BR = realloc(LSX_FFT_BR, dft_br_len(FFT_LEN) * sizeof(*LSX_FFT_BR));
       LSX_FFT_SC = realloc(LSX_FFT_SC, dft_sc_len(FFT_LEN) * sizeof(*LSX_FFT_SC));
@@ -66,14 +75,26 @@ static void DONE_WITH_FFT_CACHE(bool is_writer)
 void LSX_SAFE_RDFT(int len, int type, DFT_FLOAT * d)
 {
   bool is_writer = UPDATE_FFT_CACHE(len);
+#if defined SOXR_VERIF_YIELD
+  SOXR_VERIF_YIELD(is_writer? "dft:begin-as-writer" : "dft:begin-as-reader");
+#endif
   LSX_RDFT(len, type, d, LSX_FFT_BR, LSX_FFT_SC);
+#if defined SOXR_VERIF_YIELD
+  SOXR_VERIF_YIELD(is_writer? "dft:end-as-writer" : "dft:end-as-reader");
+#endif
   DONE_WITH_FFT_CACHE(is_writer);
 }
 
 void LSX_SAFE_CDFT(int len, int type, DFT_FLOAT * d)
 {
   bool is_writer = UPDATE_FFT_CACHE(len);
+#if defined SOXR_VERIF_YIELD
+  SOXR_VERIF_YIELD(is_writer? "dft:begin-as-writer" : "dft:begin-as-reader");
+#endif
   LSX_CDFT(len, type, d, LSX_FFT_BR, LSX_FFT_SC);
+#if defined SOXR_VERIF_YIELD
+  SOXR_VERIF_YIELD(is_writer? "dft:end-as-writer" : "dft:end-as-reader");
+#endif
   DONE_WITH_FFT_CACHE(is_writer);
 }
 
